@@ -12,12 +12,14 @@ CLAIM = dict(
     text="Theorems (for every band count, threshold, window and Kramers flag): the blocks partition the bands, "
          "internal gaps <= thresh, every boundary has a gap > thresh (even index with Kramers) and every such "
          "index is a boundary; window selection never separates bands closer than thresh, include only adds, "
-         "exclude only removes.  The model is tied to the code by running both on the same exact inputs.",
+         "exclude only removes; with threshold 0 no boundary separates equal energies, the code's hand-over of the user's "
+         "threshold is the identity and the seeded rule 0 -> -1 splits an exact pair.  The model is tied to the code by running both on the same exact inputs.",
     note="Trusted: Lean kernel + Mathlib; the harness; numpy float comparisons on dyadic inputs are exact. "
          "Tabulator value assignment and Data_K glue are checked on the real code, not modelled.",
 )
 TRUSTED = [
-    "modelled: get_borders, find_degen, get_bands_in_range (no select_bands / Ebandmin / Ebandmax), select_window_degen",
+    "modelled: get_borders, find_degen, get_bands_in_range (no select_bands / Ebandmin / Ebandmax), select_window_degen, "
+    "the hand-over Calculator(degen_thresh, degen_Kramers) -> grouping arguments (correspondence line per case, thresholds 0, th/4, th)",
     "not modelled (oracle only): Tabulator.__call__ value assignment, Data_K.get_bands_in_range_groups glue, the "
     "hand-over of the user's degen_thresh (0, tiny, th, huge) from Calculator.__init__ to the grouping (thresh_oracle)",
     "energies are dyadic rationals so that numpy's float subtraction/comparison is exact and equals the model's",
@@ -78,6 +80,18 @@ def corr(ctx):
                 lines.append(f"borders {rats(E)} {rat(th)} 0")
                 expect.append(pairs_str(got2))
                 cases.append(("find_degen", Ef.tolist(), float(th), kr))
+        # --- the same through a calculator object: the user's degen_thresh / degen_Kramers as the calculator stores
+        #     them are what the grouping receives (model: handOver false = identity); 0 is a legitimate threshold
+        thu = rng.choice([Fr(0), th, th / 4])
+        with ctx.attempt("Calculator(degen_thresh) -> get_borders", dict(E=Ef, th=float(thu), kr=kr)):
+            from wannierberri.calculators import tabulate as _tab
+            with quiet():
+                calc = _tab.Energy(degen_thresh=float(thu), degen_Kramers=kr)
+            got = get_borders(Ef, calc.degen_thresh, degen_Kramers=calc.degen_Kramers)
+            lines.append(f"borders {rats(E)} {rat(thu)} {int(kr)}")
+            expect.append(pairs_str(got))
+            cases.append(("Calculator.degen_thresh -> get_borders", Ef.tolist(), float(thu), kr))
+            ctx.count("corr.calculator_route.thresh=0" if thu == 0 else "corr.calculator_route.thresh>0")
         # --- get_bands_in_range
         emin = rng.choice(E) + rng.choice([Fr(0), -th / 2, th / 2, Fr(-1, 8)])
         emax = emin + rng.choice([Fr(0), th / 2, th * 3, Fr(1, 2), Fr(3)])
